@@ -1,3 +1,4 @@
+pub mod c03;
 pub mod c04;
 pub mod c05;
 pub mod c06;
@@ -15,6 +16,7 @@ use crate::util::{Params, Report};
 
 pub fn dispatch(prop: &str, p: &Params) -> Option<Report> {
     Some(match prop {
+        "C03" => c03::run(p),
         "C04" => c04::run_c04(p),
         "C13" => c04::run_c13(p),
         "C19" => c04::run_c19(p),
